@@ -207,6 +207,28 @@ func c13Run(c *ev.Ctx) {
 			pat = append(pat, "shrink+grow-to-many-chunks")
 			continue
 		}
+		if rank >= 2 && !large && r.Chance(1, 6) {
+			// the extents trade places (one axis grows while another shrinks, the number of
+			// elements - and often of chunks - stays the same), followed by a full rewrite
+			nd := append([]uint64(nil), cur.dims...)
+			nd[0], nd[rank-1] = nd[rank-1], nd[0]
+			ok := true
+			for d := range nd {
+				if maxd[d] != hx.Unlimited && nd[d] > maxd[d] {
+					ok = false
+				}
+			}
+			if ok && !eqU64s(nd, cur.dims) {
+				cur = cur.resize(nd)
+				steps = append(steps, step{op: hx.Op{K: "resize", Path: "/r", Dims: nd}, expect: "ok", after: cur})
+				pat = append(pat, "transpose")
+				v, vals := mkData(cur.dims, i+20)
+				cur = &ndArray{dims: cur.dims, data: vals}
+				steps = append(steps, step{op: hx.Op{K: "write", Path: "/r", Data: &v}, expect: "ok", after: cur})
+				pat = append(pat, "write")
+				continue
+			}
+		}
 		switch kindOp {
 		case 0, 1: // grow / shrink
 			nd := append([]uint64(nil), cur.dims...)
